@@ -410,12 +410,31 @@ def block_configs():
                             for op in ("ArrayToBlocks", "BlocksToArray"):
                                 out.append({"tree": {"op": op, "shape": [N1, N2], "blk_shape": [B1, B2], "blk_strides": [S1, S2]},
                                             "dtype": "complex128", "order": "N-first"})
+    # 3-D blocks in the exact-tiling regime (stride == block size dividing the extent): where the Identity shortcut applies
+    div = {1: [1], 2: [1, 2], 3: [1, 3], 4: [1, 2, 4]}
+    for N1 in (1, 2, 3, 4):
+        for N2 in (2, 3, 4):
+            for N3 in (1, 2, 3, 4):
+                for B1 in div[N1]:
+                    for B2 in div[N2]:
+                        for B3 in div[N3]:
+                            for op in ("ArrayToBlocks", "BlocksToArray"):
+                                out.append({"tree": {"op": op, "shape": [N1, N2, N3], "blk_shape": [B1, B2, B3], "blk_strides": [B1, B2, B3]},
+                                            "dtype": "complex128", "order": "H-first"})
+    # every wavelet family of the generator (incl. the non-orthogonal discrete Meyer filter) as a bare operator
+    for wave in LO.WAVES:
+        for shape in ([8], [7], [12], [4, 6], [5, 3]):
+            for level in (None, 1, 2):
+                for axes in ((None,) if len(shape) == 1 else (None, [0], [-1])):
+                    out.append({"tree": {"op": "Wavelet", "ishape": shape, "axes": axes, "wave": wave, "level": level},
+                                "dtype": "complex128", "order": "N-first"})
     return out
 
 
 def extra_coverage(tier):
     return {"exhaustive_subdomains": ["ArrayToBlocks / BlocksToArray normal operators: every 1-D (N <= 12, B <= N, S <= B+2) and 2-D "
-                                      "(N in {2,3,4}^2, B <= N, S <= B+1) configuration (%d operators, part 'blocks')" % len(block_configs())]}
+                                      "(N in {2,3,4}^2, B <= N, S <= B+1) configuration, every exact 3-D tiling over {1..4}^3, and every generator wavelet x 5 shapes x 3 levels "
+                                      "x axes (%d operators, part 'blocks')" % len(block_configs())]}
 
 
 PARTS = [
